@@ -441,7 +441,7 @@ def C20(sc, tier, replay, t0):
         kind = f["sig"].split(" ")[1] if " " in f["sig"] else ""
         # the sampled sets without hand-written files are here for the clauses about entries the generator does not
         # own; whether the generator can handle them at all is C12's business (and C12's known findings)
-        if not ("Ct" in item or "custom" in item) and kind not in ("regenerate", "user-files", "package-root-layout", "deterministic"):
+        if not ("Ct" in item or "custom" in item) and kind not in ("regenerate", "user-files", "package-root-layout", "deterministic", "missing-target"):
             continue
         f = dict(f)
         f["sig"] = "generator " + f["sig"]
